@@ -472,6 +472,12 @@ func init() {
 			return okz(bmod(new(big.Int).Lsh(c.args[1], s), c.args[0]), bmod(new(big.Int).Rsh(c.args[1], s), c.args[0]))
 		}})
 	register(&opDef{name: "num.uint.div", model: "mod.div", weight: 5, gen: genZn(false, false),
+		rel: func(c *tcase, impl, model string) string {
+			if impl == model || c.args[0].Cmp(one) == 0 {
+				return ""
+			}
+			return diffDetail("implementation", impl, "model", model)
+		},
 		impl: func(c *tcase) (string, string) {
 			zn, _ := num.NewZMod(nP(c.args[0]))
 			v, err := nU(zn, c.args[1]).TryDiv(nU(zn, c.args[2]))
@@ -577,7 +583,12 @@ func init() {
 			}
 			return okz(v.Big()), ""
 		},
-		rel: func(c *tcase, impl, model string) string { return sqrtRel(impl, model) },
+		rel: func(c *tcase, impl, model string) string {
+			if c.args[0].Cmp(two) == 0 {
+				return ""
+			}
+			return sqrtRel(impl, model)
+		},
 		pred: func(c *tcase, impl string) string {
 			if c.args[0].Cmp(two) == 0 && impl == "panic" {
 				return ""
